@@ -112,7 +112,7 @@ Init == /\ toks \in {ts \in TokIdxSeqs : Hash(ts) % NShards = Shard}
         /\ src = Flat([i \in 1..Len(toks) |-> Expand(TokenSeq[toks[i]])])
         /\ pos = 0 /\ stack = <<>> /\ scanned = <<>> /\ done = FALSE /\ acc = 1 /\ nodes = <<>>
 
-Push == /\ pos < Len(src)
+Push == /\ pos >= 0 /\ pos < Len(src)
         /\ LET ch == src[pos + 1]
                r  == IF ch = "NL" THEN Scan(scanned, stack) ELSE <<scanned, stack>>
            IN scanned' = r[1] /\ stack' = Append(r[2], ch)
@@ -134,6 +134,15 @@ ParseNode == /\ done /\ Len(nodes) < Len(scanned)
 
 Next == Push \/ Final \/ ParseNode
 Spec == Init /\ [][Next]_vars
+
+\* for -simulate beyond the exhaustive bound: the source is generated token by token (pos = -1 while generating),
+\* so that no huge set of initial states has to be built
+SimInit == /\ toks = <<>> /\ src = <<>> /\ pos = 0 - 1 /\ stack = <<>> /\ scanned = <<>> /\ done = FALSE /\ acc = 1 /\ nodes = <<>>
+AddTok == /\ pos = 0 - 1 /\ Len(toks) < MaxTok
+          /\ \E t \in 1..NTok : toks' = Append(toks, t) /\ src' = src \o Expand(TokenSeq[t])
+          /\ UNCHANGED <<pos, stack, scanned, done, acc, nodes>>
+Begin == pos = 0 - 1 /\ pos' = 0 /\ UNCHANGED <<toks, src, stack, scanned, done, acc, nodes>>
+SimSpec == SimInit /\ [][AddTok \/ Begin \/ Next]_vars
 
 \* ---- properties -------------------------------------------------------------------------------
 Conservation == ~done => Flat(scanned) \o stack = SubSeq(src, 1, pos)
